@@ -6,6 +6,7 @@ get_instructions_bytes); Spec = XV.Spec.Dis (dis._unpack_opargs per era).
 import XV.Model.Decode
 import XV.Spec.Dis
 import XV.Spec.OpTables
+import XV.Props.C02Stream
 namespace XV.Props.C02
 open XV XV.Model XV.Model.Decode
 
@@ -25,9 +26,14 @@ def zipAllN (f : Nat → Nat) : Nat → List Nat → Bool
 
 /-- the Model's `op_has_argument` / `instruction_size` return what the implementation
     returned for every opcode number of every table -/
-theorem C02_tie_helpers : ∀ t ∈ Gen.allTables,
-    (zipAll t.hasArg 0 t.hasArgProbe && zipAllN t.instrSizeOf 0 t.instrSize
-      && t.hasArgProbe.length == 256 && t.instrSize.length == 256) = true := by decide +kernel
+def tieHelpersOk (t : OpTable) : Bool :=
+  zipAll t.hasArg 0 t.hasArgProbe && zipAllN t.instrSizeOf 0 t.instrSize
+    && t.hasArgProbe.length == 256 && t.instrSize.length == 256
+
+theorem C02_tie_helpers_all : Gen.allTables.all tieHelpersOk = true := by decide +kernel
+
+theorem C02_tie_helpers : ∀ t ∈ Gen.allTables, tieHelpersOk t = true :=
+  List.all_eq_true.mp C02_tie_helpers_all
 
 /-! ### the table facts the simulation needs, discharged over the real tables -/
 
@@ -52,7 +58,10 @@ def decodeFactsOk (t : OpTable) : Bool :=
       (!(isExtName t op) || t.hasArg op) &&
       (t.instrSizeOf op == (if verGe t.version 3 6 then 2 else if t.hasArg op then 3 else 1)))
 
-theorem C02_decode_facts : ∀ t ∈ Gen.allTables, decodeFactsOk t = true := by decide +kernel
+theorem C02_decode_facts_all : Gen.allTables.all decodeFactsOk = true := by decide +kernel
+
+theorem C02_decode_facts : ∀ t ∈ Gen.allTables, decodeFactsOk t = true :=
+  List.all_eq_true.mp C02_decode_facts_all
 
 /-! ### folding of EXTENDED_ARG prefixes (word code) -/
 
@@ -76,5 +85,67 @@ example : (instrs Gen.opcode_38 [144, 1, 144, 2, 144, 3, 100, 4, 1, 0]).toOption
 example : (C02.disTblFor Gen.opcode_38).bind (fun d => Spec.Dis.unpack d [144, 1, 144, 2, 144, 3, 100, 4, 1, 0]) =
     some [(0, 144, some 1), (2, 144, some 258), (4, 144, some 66051), (6, 100, some 16909060), (8, 1, none)] := by
   decide +kernel
+
+/-! ### the unbounded stream theorem on the real tables (eras without inline caches) -/
+
+def streamFacts (t : OpTable) (d : Spec.Dis.DisTbl) : Bool :=
+  ((List.range 256).all fun op =>
+    (!(isExtName t op) || t.hasArg op) &&
+    Nat.beq (t.instrSizeOf op) (if py36 t then 2 else if t.hasArg op then 3 else 1) &&
+    (t.hasArg op == decide (op ≥ d.haveArgument)) &&
+    (isExtName t op == (d.extendedArg == some op))) &&
+  (py36 t == verGe d.version 3 6) && !(verGe d.version 3 11) && !(verGe d.version 3 12)
+
+/-- every table before 3.11 satisfies the stream facts against CPython's opcode data
+    (the reference interpreter's, or the reviewed snapshot where there is none) -/
+def streamFactsOk (t : OpTable) : Bool :=
+  match disTblFor t with
+  | none => false
+  | some d => verGe d.version 3 11 || streamFacts t d
+
+theorem C02_stream_tables_all : Gen.allTables.all streamFactsOk = true := by decide +kernel
+
+theorem C02_stream_tables : ∀ t ∈ Gen.allTables, streamFactsOk t = true :=
+  List.all_eq_true.mp C02_stream_tables_all
+
+theorem facts_of (t : OpTable) (d : Spec.Dis.DisTbl) (h : streamFacts t d = true) : TableOk t ∧ DisOk t d := by
+  simp only [streamFacts, Bool.and_eq_true, List.all_eq_true, List.mem_range, Bool.or_eq_true,
+    Bool.not_eq_true', beq_iff_eq] at h
+  obtain ⟨⟨⟨hall, hera⟩, h11⟩, h12⟩ := h
+  refine ⟨⟨?_, ?_⟩, ⟨?_, ?_, hera, h11, h12⟩⟩
+  · intro op hop hx
+    have := (hall op hop).1.1.1
+    rcases this with h | h
+    · rw [hx] at h; cases h
+    · exact h
+  · intro op hop
+    exact Nat.eq_of_beq_eq_true (hall op hop).1.1.2
+  · intro op hop; exact (hall op hop).1.2
+  · intro op hop; exact (hall op hop).2
+
+/-- C02_stream_all: on every opcode table of a version before 3.11 that xdis ships, for every
+    byte string of any length, Model.Decode.instrs = CPython's _unpack_opargs -/
+theorem C02_stream_all (t : OpTable) (ht : t ∈ Gen.allTables) (d : Spec.Dis.DisTbl) (hd : disTblFor t = some d)
+    (h11 : verGe d.version 3 11 = false) (code : Bytes) (hbytes : IsBytes code)
+    (hc : (verGe d.version 3 10 = true ∧ py36 t = true) ∨ CarryOk t code) :
+    (instrs t code).toOption.map (List.map tri) = Spec.Dis.unpack d code := by
+  have h := C02_stream_tables t ht
+  simp only [streamFactsOk, hd, h11, Bool.false_or] at h
+  obtain ⟨ok, dk⟩ := facts_of t d h
+  exact C02_stream t d code ok dk hbytes hc
+
+/-- non-vacuity: the hypotheses hold for a real 3.8 code string with a three-prefix operand -/
+example : IsBytes [144, 1, 144, 2, 144, 3, 100, 4, 1, 0] ∧ CarryOk Gen.opcode_38 [144, 1, 144, 2, 144, 3, 100, 4, 1, 0] := by
+  constructor
+  · intro b hb; simp at hb; omega
+  · unfold CarryOk; decide +kernel
+
+/-- and the carry condition is what it says: 3.8 `EXTENDED_ARG 1; POP_TOP; LOAD_CONST 0` is excluded
+    (CPython 3.8 reports LOAD_CONST 256 there, xdis 0) -/
+example : carryOk Gen.opcode_38 [144, 1, 1, 0, 100, 0] 7 0 0 = false := by decide +kernel
+example : ((instrs Gen.opcode_38 [144, 1, 1, 0, 100, 0]).toOption.map (List.map tri)) =
+    some [(0, 144, some 1), (2, 1, none), (4, 100, some 0)] ∧
+    (disTblFor Gen.opcode_38).bind (fun d => Spec.Dis.unpack d [144, 1, 1, 0, 100, 0]) =
+    some [(0, 144, some 1), (2, 1, none), (4, 100, some 256)] := by decide +kernel
 
 end XV.Props.C02
